@@ -283,18 +283,17 @@ func Ite[X any](c bool, a, b X) X {
 var footprints = map[string]func(){}
 
 // Footprint (native): remember the call; ConflictFree runs the two calls
-// concurrently (the replay binary is built with -race for these harnesses).
-func Footprint(label string, f func()) { footprints[label] = f; f() }
+// concurrently for the first time (so that once-only writes race), and the
+// replay binary is built with -race for these harnesses.
+func Footprint(label string, f func()) { footprints[label] = f }
 
 func ConflictFree(a, b string) bool {
 	fa, fb := footprints[a], footprints[b]
-	for i := 0; i < 20; i++ {
-		var wg sync.WaitGroup
-		wg.Add(2)
-		go func() { defer wg.Done(); fa() }()
-		go func() { defer wg.Done(); fb() }()
-		wg.Wait()
-	}
+	var wg sync.WaitGroup
+	wg.Add(2)
+	go func() { defer wg.Done(); fa() }()
+	go func() { defer wg.Done(); fb() }()
+	wg.Wait()
 	return true
 }
 
